@@ -325,6 +325,30 @@ fn check_base(e: &mut Env10, argv: &[Tok], only: Option<(usize, &str)>, ctx: &mu
                 _ => false,
             };
             if ok {
+                // help also wins over a version request written anywhere on the same level
+                if let (false, Some(root), Some(Outcome::Stdout { text, .. })) = (is_version || is_plain_unknown, &e.u.level, &expected) {
+                    if root.version.is_some() && !matches!(root.tail, Tail::Cmds { .. }) && !text.is_empty() && !e.u.custom_help {
+                        let dd2 = v2.iter().position(|x| x.0 == b"--").unwrap_or(v2.len());
+                        for q in 0..=dd2 {
+                            for vt in ["--version", "-V"] {
+                                let v3 = insert(&v2, q, vt);
+                                ctx.s.evaluations += 1;
+                                ctx.s.transitions += 1;
+                                let r3 = run(e.p, &v3);
+                                let same = matches!(&r3, Outcome::Stdout { text: t3, .. } if t3 == text);
+                                if same {
+                                    ctx.count("help-and-version-together-judged");
+                                } else {
+                                    let mut sig = BTreeMap::new();
+                                    sig.insert("family".to_string(), e.u.family.clone());
+                                    sig.insert("token".to_string(), "help-and-version".to_string());
+                                    sig.insert("observed".to_string(), r3.class().to_string());
+                                    ctx.violation(Violation { property: "C10".into(), rule: "help-wins-over-version".into(), sig, unit: e.unit.clone(), case: json!({"base": argv, "pos": pos, "token": token, "argv": v3}), expected: format!("the help text, as without the version item: {}", text.chars().take(120).collect::<String>()), observed: r3.brief(), size: v3.len() * 1000 });
+                                }
+                            }
+                        }
+                    }
+                }
                 ctx.s.nontrivial += 1;
                 ctx.count(if is_version { "version-requests-judged" } else { "help-requests-judged" });
                 if path.as_ref().map_or(false, |p| !p.is_empty()) {
@@ -461,7 +485,7 @@ impl Check for C10 {
         run_u(&u, unit, Some((&base, pos, &token)), ctx);
     }
     fn rule(&self) -> String {
-        "definitions = conventional levels (<=2 named items x all tails incl. command tails of depth 3, version configured nowhere / at the top / everywhere), command trees of C08 (every fifth with custom - non-ASCII - help names on all levels, every seventh on the sub-commands only), the general shape family and adjacent group shapes; base vectors = every vector of the token tree (valid, invalid, incomplete); the help token (--help, -h, custom names) and the version token (--version, -V) are inserted as an item of their own at EVERY position left of the first `--`; oracle: outcome is stdout and equals, byte for byte, the help/version text of the level owning that position (reference level finder: deepest command whose name was the first unclaimed item), version is an ordinary unknown flag where not configured; for general shapes the level is judged while no command name precedes the position; for adjacent commands a position directly behind the command name and its own items belongs to the command; evaluation = one run; non-trivial = judged insertion".into()
+        "definitions = conventional levels (<=2 named items x all tails incl. command tails of depth 3, version configured nowhere / at the top / everywhere), command trees of C08 (every fifth with custom - non-ASCII - help names on all levels, every seventh on the sub-commands only), the general shape family and adjacent group shapes; base vectors = every vector of the token tree (valid, invalid, incomplete); the help token (--help, -h, custom names) and the version token (--version, -V) are inserted as an item of their own at EVERY position left of the first `--`; oracle: outcome is stdout and equals, byte for byte, the help/version text of the level owning that position (reference level finder: deepest command whose name was the first unclaimed item), version is an ordinary unknown flag where not configured; on levels with a version and no commands a version item added at any position next to the help item still gives the help; for general shapes the level is judged while no command name precedes the position; for adjacent commands a position directly behind the command name and its own items belongs to the command; evaluation = one run; non-trivial = judged insertion".into()
     }
     fn bounds(&self, tier: Tier) -> Value {
         json!({"base_vector_length": tier.pick("3 (1 item), 2 (2 items, trees, shapes), 3 (groups)", "4 / 3 / 4"), "insert_positions": "all, left of `--`"})
